@@ -22,6 +22,7 @@ fn main() {
         Some("worker") => driver::worker(&args[2..]),
         Some("probe") => probe(&args[2..]),
         Some("probe-any") => probe_any(&args[2..]),
+        Some("stream") => stream(&args[2..]),
         _ => {
             eprintln!("usage: waxmon run <Cxx> <quick|thorough> [--replay <file>]");
             2
@@ -104,5 +105,25 @@ fn probe_any(args: &[String]) -> i32 {
             }
         },
     }
+    0
+}
+
+/// Debugging aid: `waxmon stream <quick|thorough> <seed> <scale> [substring]` prints the expressions of the
+/// shared expression stream (those containing the substring), with their index.
+fn stream(args: &[String]) -> i32 {
+    let tier = if args.first().map(|s| s.as_str()) == Some("thorough") { ctx::Tier::Thorough } else { ctx::Tier::Quick };
+    let seed: u64 = args.get(1).and_then(|s| s.parse().ok()).unwrap_or(1);
+    let scale: usize = args.get(2).and_then(|s| s.parse().ok()).unwrap_or(10);
+    let st = ctx::ExprStream::new(tier, seed, scale);
+    let needle = args.get(3).cloned().unwrap_or_default();
+    let mut n = 0;
+    for i in 0..st.len() {
+        let e = st.at(i);
+        if e.contains(&needle) {
+            println!("{}\t{}", i, e);
+            n += 1;
+        }
+    }
+    eprintln!("{} of {} expressions", n, st.len());
     0
 }
